@@ -1,0 +1,17 @@
+//go:build verif
+
+package sweeper
+
+import "context"
+
+// VerifSweep runs exactly one sweeper pass. It only exists in the `verif`
+// build, for the simulation harness.
+func (s *Sweeper) VerifSweep(ctx context.Context) error {
+	return s.sweep(ctx)
+}
+
+// VerifLastStats returns (entries, deleted, cleaned, txns) of the last pass.
+func (s *Sweeper) VerifLastStats() (nEntries, nDeleted, nCleaned, nTxn int) {
+	st := s.lastStats
+	return st.nEntries, st.nDeleted, st.nCleaned, st.nTxn
+}
